@@ -927,3 +927,99 @@ def oracle_c03(line, case, stats, allc=None, lines=None):
 
 def classify_c03(line, case, msg):
     return 'IntegrationPointNameReuse' if '[ip-name-reuse]' in msg else None
+
+# ------------------------------------------------------------------------------------------------
+# C07: (A) independent invariant: every tag of the input that no handler touched (and that is not inside removed content)
+# survives, in order, in the output; (B) when the output differs from the Coq model's (the reference editor validated on the
+# unchanged tree), the two outputs are re-tokenised: a token-level difference is a failing input, a formatting difference is not.
+MODEL = {}
+def _tag_seq(data):
+    return [(t[0], t[3]) for t in whatwg_ref.tokenize(data) if t[0] in ('S', 'E')]
+def _subseq_missing(need, have):
+    j = 0
+    for k, t in enumerate(need):
+        while j < len(have) and have[j] != t: j += 1
+        if j >= len(have): return k
+        j += 1
+    return None
+def oracle_c07(line, case, stats, allc=None, lines=None):
+    if not line.startswith('L2 ') or ' nomodel=1' in line: return []
+    d = kv(line)
+    if 'fail' in d or 'mem' in d or d.get('strict', '0') == '1': return []
+    if any(obslog.norm_res(c['res']) != 'ok' for c in case['calls']): return []
+    errs = []
+    data = input_bytes(line)
+    out = bytes.fromhex(''.join(obslog.sink_bytes(c['sink']) for c in case['calls']))
+    stats['cases'] = stats.get('cases', 0) + 1
+    # ---- (B) the model as reference editor, modulo serialisation
+    m = MODEL.get(case['id'])
+    if m is not None:
+        mout = bytes.fromhex(''.join(obslog.sink_bytes(c['sink']) for c in m['calls']))
+        if mout != out:
+            a, b = whatwg_ref.tokenize(out), whatwg_ref.tokenize(mout)
+            strip = lambda ts: [(t[0],) + tuple(t[3:]) if t[0] != 'T' else ('T', (out if ts is a else mout)[t[1]:t[2]]) for t in ts]
+            if strip(a) != strip(b):
+                errs.append('the output is not the documented edit: re-tokenised, it differs from the reference editor\'s output (%d vs %d tokens)' % (len(a), len(b)))
+            else: stats['formatting_only_differences'] = stats.get('formatting_only_differences', 0) + 1
+    # ---- (A) untouched tags survive (HTML-only documents; no insertion of a lone "<")
+    low = whatwg_ref.lower(data)
+    if b'<svg' in low or b'<math' in low or re.search(r'[:;(+]h3c([,;~ )+]|$)', line): return errs
+    toks = whatwg_ref.tokenize(data)
+    # re-tokenising the output is only meaningful when user content cannot fuse with document text into new markup:
+    # no '<' inside a text node of the input (an inserted "plain" after the text "1 <" makes a tag) ...
+    if any(t[0] == 'T' and b'<' in data[t[1]:t[2]] for t in toks): return errs
+    # ... and no renaming from / to an element whose content is tokenized in a text mode
+    TEXTMODE = {b'title', b'textarea', b'style', b'xmp', b'iframe', b'noembed', b'noframes', b'noscript', b'script', b'plaintext', b'svg', b'math'}
+    if re.search(r'tn:', line):
+        targets = {whatwg_ref.lower(bytes.fromhex(x)) for x in re.findall(r'tn:([0-9a-f]*)', line)}
+        if targets & TEXTMODE or any(t[0] == 'S' and t[3] in TEXTMODE for t in toks): return errs
+    tags = [t for t in toks if t[0] in ('S', 'E')]
+    sels = [t[4:].split('~') for t in line.split(' ') if t.startswith('sel=')]
+    el_scripts = [p[2] for p in sels if p[2] != '-']
+    touched = {}      # start offset -> set of op kinds
+    for c in case['calls']:
+        for head, tok in zip(c.get('handlers', []), c['events']):
+            f = head.split(' ')
+            if f[0] == 'el' and tok.startswith('S '):
+                a = int(tok.split(' ')[1].split('..')[0])
+                ops = el_scripts[int(f[1])] if int(f[1]) < len(el_scripts) else ''
+                kinds = touched.setdefault(a, set())
+                for o in ops.split(','):
+                    if o[:2] in ('rm', 'rp', 'rk', 'si', 'tn', 'sx', 'sr'): kinds.add(o[:2])
+                    if o.startswith('oe:') and re.search(r'rm|rp:|sn:', o): kinds.add('oe')
+    if not touched: return errs
+    # tree induced by the tags: for every element the index of its own end tag (ei) and the index at which it stops being open
+    stack, elems = [], []
+    for i, t in enumerate(tags):
+        if t[0] == 'S':
+            e = dict(si=i, ei=None, close=len(tags), name=t[3], a=t[1])
+            elems.append(e)
+            if t[3] not in whatwg_ref.VOID: stack.append(e)
+            else: e['close'] = i + 1
+        else:
+            for k in range(len(stack) - 1, -1, -1):
+                if stack[k]['name'] == t[3]:
+                    stack[k]['ei'] = i; stack[k]['close'] = i + 1
+                    for x in stack[k + 1:]: x['close'] = i          # closed by this ancestor's end tag, which is not theirs
+                    del stack[k:]; break
+    drop = set()
+    for e in elems:
+        k = touched.get(e['a'])
+        if not k: continue
+        if k & {'rm', 'rp'}: drop.update(range(e['si'], e['close']))
+        if 'si' in k: drop.update(range(e['si'] + 1, e['ei'] if e['ei'] is not None else e['close']))
+        if k & {'rk', 'tn'}: drop.add(e['si']); (drop.add(e['ei']) if e['ei'] is not None else None)
+        if k & {'sx', 'sr'}: drop.add(e['si'])
+        if 'oe' in k and e['ei'] is not None: drop.add(e['ei'])
+    need = [(t[0], t[3]) for i, t in enumerate(tags) if i not in drop]
+    have = _tag_seq(out)
+    stats['untouched_tags_checked'] = stats.get('untouched_tags_checked', 0) + len(need)
+    miss = _subseq_missing(need, have)
+    if miss is not None:
+        t = need[miss]
+        # known finding class: the missing tag is an end tag that (also) closes a touched element which has no end tag of its own
+        implicit = any(e['ei'] is None and e['name'] not in whatwg_ref.VOID and touched.get(e['a']) for e in elems)
+        errs.append('untouched %s tag %r of the input is missing from the output%s' % ('end' if t[0] == 'E' else 'start', t[1], ' [implicitly-closed-touched-element]' if implicit else ''))
+    return errs[:3]
+def classify_c07(line, case, msg):
+    return 'ImplicitlyClosedElementEdit' if '[implicitly-closed-touched-element]' in msg else None
